@@ -11,26 +11,24 @@ From EvyV Require Import Base Ast Sem Static.
 From EvyV Require TypesSyntax TypesSpec TypesSpecProofs Types TypesProofs.
 Import ListNotations.
 
-Module S := TypesSyntax.
-Module Sp := TypesSpec.
 
 (* ---------- types ---------- *)
 (* Ast.ty has three parser-internal leaves the source language cannot name (none, the generic
    parameter types); the specification's [sty] has none of them *)
-Fixpoint sty_of (t : ty) : option S.sty :=
+Fixpoint sty_of (t : ty) : option TypesSyntax.sty :=
   match t with
-  | TNum => Some S.SNum | TStr => Some S.SString | TBool => Some S.SBool | TAny => Some S.SAny
-  | TArr u => option_map S.SArr (sty_of u)
-  | TMap u => option_map S.SMap (sty_of u)
-  | TEmptyArr => Some S.SEmptyArr | TEmptyMap => Some S.SEmptyMap
+  | TNum => Some TypesSyntax.SNum | TStr => Some TypesSyntax.SString | TBool => Some TypesSyntax.SBool | TAny => Some TypesSyntax.SAny
+  | TArr u => option_map TypesSyntax.SArr (sty_of u)
+  | TMap u => option_map TypesSyntax.SMap (sty_of u)
+  | TEmptyArr => Some TypesSyntax.SEmptyArr | TEmptyMap => Some TypesSyntax.SEmptyMap
   | TNone | TGenArr | TGenMap => None
   end.
 
-Fixpoint ty_of (s : S.sty) : ty :=
+Fixpoint ty_of (s : TypesSyntax.sty) : ty :=
   match s with
-  | S.SNum => TNum | S.SString => TStr | S.SBool => TBool | S.SAny => TAny
-  | S.SArr u => TArr (ty_of u) | S.SMap u => TMap (ty_of u)
-  | S.SEmptyArr => TEmptyArr | S.SEmptyMap => TEmptyMap
+  | TypesSyntax.SNum => TNum | TypesSyntax.SString => TStr | TypesSyntax.SBool => TBool | TypesSyntax.SAny => TAny
+  | TypesSyntax.SArr u => TArr (ty_of u) | TypesSyntax.SMap u => TMap (ty_of u)
+  | TypesSyntax.SEmptyArr => TEmptyArr | TypesSyntax.SEmptyMap => TEmptyMap
   end.
 
 Lemma sty_of_ty_of s : sty_of (ty_of s) = Some s.
@@ -62,30 +60,30 @@ Lemma ty_eqb_same a : ty_eqb a a = true.
 Proof. induction a; simpl; auto. Qed.
 
 (* a type the source can write = a closed specification type *)
-Lemma closed_proper s : S.closed s = ty_proper (ty_of s).
+Lemma closed_proper s : TypesSyntax.closed s = ty_proper (ty_of s).
 Proof. induction s; simpl; auto. Qed.
 
 (* ---------- operators ---------- *)
-Definition binop_of (op : binop) : S.binop :=
+Definition binop_of (op : binop) : TypesSyntax.binop :=
   match op with
-  | BPlus => S.OpPlus | BMinus => S.OpMinus | BSlash => S.OpSlash | BAsterisk => S.OpAsterisk
-  | BPercent => S.OpPercent | BOr => S.OpOr | BAnd => S.OpAnd | BEq => S.OpEq | BNotEq => S.OpNotEq
-  | BLt => S.OpLt | BGt => S.OpGt | BLtEq => S.OpLtEq | BGtEq => S.OpGtEq
+  | BPlus => TypesSyntax.OpPlus | BMinus => TypesSyntax.OpMinus | BSlash => TypesSyntax.OpSlash | BAsterisk => TypesSyntax.OpAsterisk
+  | BPercent => TypesSyntax.OpPercent | BOr => TypesSyntax.OpOr | BAnd => TypesSyntax.OpAnd | BEq => TypesSyntax.OpEq | BNotEq => TypesSyntax.OpNotEq
+  | BLt => TypesSyntax.OpLt | BGt => TypesSyntax.OpGt | BLtEq => TypesSyntax.OpLtEq | BGtEq => TypesSyntax.OpGtEq
   end.
 
-Definition unop_of (op : unop) : S.unop := match op with UMinus => S.UMinus | UBang => S.UBang end.
+Definition unop_of (op : unop) : TypesSyntax.unop := match op with UMinus => TypesSyntax.UMinus | UBang => TypesSyntax.UBang end.
 
 (* operands of == / != : Static's [ty_compat] is the specification's [unify] succeeding *)
-Lemma compat_unify : forall a b, ty_compat (ty_of a) (ty_of b) = true <-> Sp.unify a b <> None.
+Lemma compat_unify : forall a b, ty_compat (ty_of a) (ty_of b) = true <-> TypesSpec.unify a b <> None.
 Proof.
   induction a; destruct b; simpl; split; intros H; try discriminate; try congruence; try reflexivity;
     try (exfalso; apply H; reflexivity).
-  - destruct (S.sty_eqb a b); [discriminate|]. apply IHa in H. destruct (Sp.unify a b); [discriminate|congruence].
-  - destruct (S.sty_eqb a b) eqn:E; [apply sty_eqb_eq in E; subst; apply IHa; rewrite TypesSpecProofs.unify_refl; discriminate|].
-    apply IHa. destruct (Sp.unify a b); [discriminate|]. simpl in H. congruence.
-  - destruct (S.sty_eqb a b); [discriminate|]. apply IHa in H. destruct (Sp.unify a b); [discriminate|congruence].
-  - destruct (S.sty_eqb a b) eqn:E; [apply sty_eqb_eq in E; subst; apply IHa; rewrite TypesSpecProofs.unify_refl; discriminate|].
-    apply IHa. destruct (Sp.unify a b); [discriminate|]. simpl in H. congruence.
+  - destruct (TypesSyntax.sty_eqb a b); [discriminate|]. apply IHa in H. destruct (TypesSpec.unify a b); [discriminate|congruence].
+  - destruct (TypesSyntax.sty_eqb a b) eqn:E; [apply sty_eqb_eq in E; subst; apply IHa; rewrite TypesSpecProofs.unify_refl; discriminate|].
+    apply IHa. destruct (TypesSpec.unify a b); [discriminate|]. simpl in H. congruence.
+  - destruct (TypesSyntax.sty_eqb a b); [discriminate|]. apply IHa in H. destruct (TypesSpec.unify a b); [discriminate|congruence].
+  - destruct (TypesSyntax.sty_eqb a b) eqn:E; [apply sty_eqb_eq in E; subst; apply IHa; rewrite TypesSpecProofs.unify_refl; discriminate|].
+    apply IHa. destruct (TypesSpec.unify a b); [discriminate|]. simpl in H. congruence.
 Qed.
 
 Lemma ty_of_inj a b : ty_of a = ty_of b -> a = b.
@@ -98,7 +96,7 @@ Definition bin_ok (op : binop) (a b t : ty) : bool := opt_ty_eqb (bin_ty op a b)
 (* forward: the result type Static computes is the one the specification's table gives *)
 Theorem bin_ty_spec op a b t :
   bin_ty op (ty_of a) (ty_of b) = Some t ->
-  exists s, Sp.op_type (binop_of op) a b = Some s /\ t = ty_of s.
+  exists s, TypesSpec.op_type (binop_of op) a b = Some s /\ t = ty_of s.
 Proof.
   intros H.
   destruct op; simpl binop_of;
@@ -107,26 +105,26 @@ Proof.
     destruct a, b; simpl in H; try discriminate;
       try (inversion H; subst; eexists; split; reflexivity).
     + destruct (ty_eqb (ty_of a) (ty_of b)) eqn:E; [|discriminate]. apply ty_eqb_true, ty_of_inj in E; subst b.
-      inversion H; subst. exists (S.SArr a). split; [|reflexivity].
-      unfold Sp.op_type. simpl. rewrite sty_eqb_refl. reflexivity.
+      inversion H; subst. exists (TypesSyntax.SArr a). split; [|reflexivity].
+      unfold TypesSpec.op_type. simpl. rewrite sty_eqb_refl. reflexivity.
   - (* == *)
     simpl in H. destruct (ty_compat (ty_of a) (ty_of b)) eqn:E; [|discriminate]. inversion H; subst.
-    apply compat_unify in E. exists S.SBool. split; [|reflexivity].
-    unfold Sp.op_type. simpl. destruct (Sp.unify a b); [reflexivity|congruence].
+    apply compat_unify in E. exists TypesSyntax.SBool. split; [|reflexivity].
+    unfold TypesSpec.op_type. simpl. destruct (TypesSpec.unify a b); [reflexivity|congruence].
   - simpl in H. destruct (ty_compat (ty_of a) (ty_of b)) eqn:E; [|discriminate]. inversion H; subst.
-    apply compat_unify in E. exists S.SBool. split; [|reflexivity].
-    unfold Sp.op_type. simpl. destruct (Sp.unify a b); [reflexivity|congruence].
+    apply compat_unify in E. exists TypesSyntax.SBool. split; [|reflexivity].
+    unfold TypesSpec.op_type. simpl. destruct (TypesSpec.unify a b); [reflexivity|congruence].
 Qed.
 
 (* converse: where the specification's table gives a type Static accepts the node annotated with
    it, PROVIDED array concatenation unifies its operands only at the top ([shallow]): Static types
    a + b when a = b or one of them is exactly the untyped [].  The guard is needed: see
    [bin_guard_needed] (the program  [[1]] + [[]] ). *)
-Definition shallow (op : binop) (a b : S.sty) : Prop :=
-  op = BPlus -> Sp.is_array_b a = true -> a = b \/ a = S.SEmptyArr \/ b = S.SEmptyArr.
+Definition shallow (op : binop) (a b : TypesSyntax.sty) : Prop :=
+  op = BPlus -> TypesSpec.is_array_b a = true -> a = b \/ a = TypesSyntax.SEmptyArr \/ b = TypesSyntax.SEmptyArr.
 
 Theorem op_type_static op a b s :
-  Sp.op_type (binop_of op) a b = Some s -> shallow op a b ->
+  TypesSpec.op_type (binop_of op) a b = Some s -> shallow op a b ->
   bin_ok op (ty_of a) (ty_of b) (ty_of s) = true.
 Proof.
   intros H Hsh. unfold bin_ok.
@@ -135,17 +133,17 @@ Proof.
   - (* + *)
     destruct a, b; simpl in H; try discriminate; try (inversion H; subst; reflexivity).
     + destruct (Hsh eq_refl eq_refl) as [E|[E|E]]; try discriminate. inversion E; subst b.
-      unfold Sp.op_type in H. simpl in H. rewrite sty_eqb_refl in H. inversion H; subst.
+      unfold TypesSpec.op_type in H. simpl in H. rewrite sty_eqb_refl in H. inversion H; subst.
       simpl. rewrite ty_eqb_same. simpl. rewrite ty_eqb_same. reflexivity.
-    + unfold Sp.op_type in H; simpl in H. inversion H; subst. simpl. rewrite ty_eqb_same. reflexivity.
-    + unfold Sp.op_type in H; simpl in H. inversion H; subst. simpl. rewrite ty_eqb_same. reflexivity.
+    + unfold TypesSpec.op_type in H; simpl in H. inversion H; subst. simpl. rewrite ty_eqb_same. reflexivity.
+    + unfold TypesSpec.op_type in H; simpl in H. inversion H; subst. simpl. rewrite ty_eqb_same. reflexivity.
   - (* * *)
     destruct a, b; simpl in H; try discriminate; inversion H; subst; simpl; try rewrite ty_eqb_same; reflexivity.
   - (* == *)
-    unfold Sp.op_type in H. simpl in H. destruct (Sp.unify a b) eqn:E; [|discriminate]. inversion H; subst.
+    unfold TypesSpec.op_type in H. simpl in H. destruct (TypesSpec.unify a b) eqn:E; [|discriminate]. inversion H; subst.
     assert (Hc : ty_compat (ty_of a) (ty_of b) = true) by (apply compat_unify; congruence).
     simpl. rewrite Hc. reflexivity.
-  - unfold Sp.op_type in H. simpl in H. destruct (Sp.unify a b) eqn:E; [|discriminate]. inversion H; subst.
+  - unfold TypesSpec.op_type in H. simpl in H. destruct (TypesSpec.unify a b) eqn:E; [|discriminate]. inversion H; subst.
     assert (Hc : ty_compat (ty_of a) (ty_of b) = true) by (apply compat_unify; congruence).
     simpl. rewrite Hc. reflexivity.
 Qed.
@@ -153,45 +151,45 @@ Qed.
 (* the guard is exact: the specification (and the Go parser) type  [[1]] + [[]]  as [][]num,
    Static does not (the evaluator would store an untyped-[] cell in a [][]num array) *)
 Lemma bin_guard_needed :
-  let a := S.SArr (S.SArr S.SNum) in let b := S.SArr S.SEmptyArr in
-  Sp.op_type S.OpPlus a b = Some a /\ bin_ok BPlus (ty_of a) (ty_of b) (ty_of a) = false.
+  let a := TypesSyntax.SArr (TypesSyntax.SArr TypesSyntax.SNum) in let b := TypesSyntax.SArr TypesSyntax.SEmptyArr in
+  TypesSpec.op_type TypesSyntax.OpPlus a b = Some a /\ bin_ok BPlus (ty_of a) (ty_of b) (ty_of a) = false.
 Proof. split; reflexivity. Qed.
 
 (* unary operators, index, slice, dot, type assertion: the same tables *)
 Lemma unop_spec op a : 
   match op, ty_of a with UMinus, TNum => Some TNum | UBang, TBool => Some TBool | _, _ => None end
-  = option_map ty_of (Sp.unop_type (unop_of op) a).
+  = option_map ty_of (TypesSpec.unop_type (unop_of op) a).
 Proof. destruct op, a; reflexivity. Qed.
 
 Definition static_index (a b : ty) : option ty :=
   match a, b with
   | TArr u, TNum => Some u | TStr, TNum => Some TStr | TMap u, TStr => Some u | _, _ => None
   end.
-Lemma index_spec a b : static_index (ty_of a) (ty_of b) = option_map ty_of (Sp.index_type_s a b).
+Lemma index_spec a b : static_index (ty_of a) (ty_of b) = option_map ty_of (TypesSpec.index_type_s a b).
 Proof. destruct a, b; reflexivity. Qed.
 
 Definition static_slice (a : ty) : option ty :=
   match a with TArr _ | TEmptyArr | TStr => Some a | _ => None end.
-Lemma slice_spec a : static_slice (ty_of a) = option_map ty_of (Sp.slice_type_s a).
+Lemma slice_spec a : static_slice (ty_of a) = option_map ty_of (TypesSpec.slice_type_s a).
 Proof. destruct a; reflexivity. Qed.
 
 Definition static_dot (a : ty) : option ty := match a with TMap u => Some u | _ => None end.
-Lemma dot_spec a : static_dot (ty_of a) = option_map ty_of (Sp.dot_type_s a).
+Lemma dot_spec a : static_dot (ty_of a) = option_map ty_of (TypesSpec.dot_type_s a).
 Proof. destruct a; reflexivity. Qed.
 
 (* type assertion: Static's side condition is the specification's AssertOk plus the nesting bound *)
 Lemma assert_spec t :
   negb (is_any (ty_of t)) && ty_decl (ty_of t) =
-  negb (S.sty_eqb t S.SAny) && S.closed t && ty_small (ty_of t).
+  negb (TypesSyntax.sty_eqb t TypesSyntax.SAny) && TypesSyntax.closed t && ty_small (ty_of t).
 Proof. unfold ty_decl. rewrite <- closed_proper. destruct t; simpl; try reflexivity. Qed.
 
 (* assignment target steps *)
 Lemma target_step_spec_static t k :
-  Sp.target_step_s t k =
+  TypesSpec.target_step_s t k =
   match t, k with
-  | S.SArr s, Sp.SKIdx S.SNum => Some s
-  | S.SMap s, Sp.SKIdx S.SString => Some s
-  | S.SMap s, Sp.SKDot => Some s
+  | TypesSyntax.SArr s, TypesSpec.SKIdx TypesSyntax.SNum => Some s
+  | TypesSyntax.SMap s, TypesSpec.SKIdx TypesSyntax.SString => Some s
+  | TypesSyntax.SMap s, TypesSpec.SKDot => Some s
   | _, _ => None
   end.
 Proof. reflexivity. Qed.
@@ -200,9 +198,9 @@ Proof. reflexivity. Qed.
    gives the DEFAULTED element type, Static the element type itself; they coincide on closed
    element types *)
 Lemma range_spec a :
-  match a with S.SArr u => S.closed u = true | S.SNum => False (* a step range: RStep, not RExpr *) | _ => True end ->
+  match a with TypesSyntax.SArr u => TypesSyntax.closed u = true | TypesSyntax.SNum => False (* a step range: RStep, not RExpr *) | _ => True end ->
   option_map ty_of
-    (match Sp.spec_check S.CRange (S.EVar a) with Sp.SAccept st _ => Some st | Sp.SReject => None end)
+    (match TypesSpec.spec_check TypesSyntax.CRange (TypesSyntax.EVar a) with TypesSpec.SAccept st _ => Some st | TypesSpec.SReject => None end)
   = range_var_ty (ty_of a).
 Proof.
   destruct a as [| | | |u|u| |]; simpl; auto; try contradiction. intros Hc. f_equal.
@@ -210,74 +208,74 @@ Proof.
 Qed.
 
 Lemma range_guard_needed :
-  Sp.spec_check S.CRange (S.EVar (S.SArr S.SEmptyArr)) = Sp.SAccept (S.SArr S.SAny) (S.SArr S.SAny) /\
-  range_var_ty (ty_of (S.SArr S.SEmptyArr)) = Some TEmptyArr.
+  TypesSpec.spec_check TypesSyntax.CRange (TypesSyntax.EVar (TypesSyntax.SArr TypesSyntax.SEmptyArr)) = TypesSpec.SAccept (TypesSyntax.SArr TypesSyntax.SAny) (TypesSyntax.SArr TypesSyntax.SAny) /\
+  range_var_ty (ty_of (TypesSyntax.SArr TypesSyntax.SEmptyArr)) = Some TEmptyArr.
 Proof. split; reflexivity. Qed.
 
 (* ---------- expressions: the translation ---------- *)
 (* forgets annotations and Any wrappers; a variable is represented by its type, taken from the
    environment; a call by its result type (its arguments are contexts of their own, see
    [call_args_spec]) *)
-Fixpoint erase (G : tyenv) (e : expr) {struct e} : option S.expr :=
-  let erases := fix go (es : list expr) : option (list S.expr) :=
+Fixpoint erase (G : tyenv) (e : expr) {struct e} : option TypesSyntax.expr :=
+  let erases := fix go (es : list expr) : option (list TypesSyntax.expr) :=
     match es with
     | [] => Some []
     | x :: r => match erase G x, go r with Some a, Some b => Some (a :: b) | _, _ => None end
     end in
-  let erasep := fix go (ps : list (str * expr)) : option (list S.expr) :=
+  let erasep := fix go (ps : list (str * expr)) : option (list TypesSyntax.expr) :=
     match ps with
     | [] => Some []
     | (_, x) :: r => match erase G x, go r with Some a, Some b => Some (a :: b) | _, _ => None end
     end in
-  let eraseo (o : option expr) : option (option S.expr) :=
+  let eraseo (o : option expr) : option (option TypesSyntax.expr) :=
     match o with None => Some None | Some x => option_map Some (erase G x) end in
   match e with
-  | ENum _ => Some S.ELitNum
-  | EStr _ => Some S.ELitStr
-  | EBool _ => Some S.ELitBool
-  | EVar n _ => match slookup n G with Some t => option_map S.EVar (sty_of t) | None => None end
+  | ENum _ => Some TypesSyntax.ELitNum
+  | EStr _ => Some TypesSyntax.ELitStr
+  | EBool _ => Some TypesSyntax.ELitBool
+  | EVar n _ => match slookup n G with Some t => option_map TypesSyntax.EVar (sty_of t) | None => None end
   | EAny a _ => erase G a
-  | EArr _ es => option_map S.EArr (erases es)
-  | EMap _ ps => option_map S.EMap (erasep ps)
-  | ECall _ t _ => option_map S.ECall (sty_of t)
-  | EUn op a => option_map (S.EUn (unop_of op)) (erase G a)
+  | EArr _ es => option_map TypesSyntax.EArr (erases es)
+  | EMap _ ps => option_map TypesSyntax.EMap (erasep ps)
+  | ECall _ t _ => option_map TypesSyntax.ECall (sty_of t)
+  | EUn op a => option_map (TypesSyntax.EUn (unop_of op)) (erase G a)
   | EBin op _ l r =>
-      match erase G l, erase G r with Some a, Some b => Some (S.EBin (binop_of op) a b) | _, _ => None end
+      match erase G l, erase G r with Some a, Some b => Some (TypesSyntax.EBin (binop_of op) a b) | _, _ => None end
   | EIndex _ l i =>
-      match erase G l, erase G i with Some a, Some b => Some (S.EIndex a b) | _, _ => None end
+      match erase G l, erase G i with Some a, Some b => Some (TypesSyntax.EIndex a b) | _, _ => None end
   | ESlice _ l lo hi =>
       match erase G l, eraseo lo, eraseo hi with
-      | Some a, Some b, Some c => Some (S.ESlice a b c)
+      | Some a, Some b, Some c => Some (TypesSyntax.ESlice a b c)
       | _, _, _ => None
       end
-  | EDot _ l _ => option_map S.EDot (erase G l)
-  | EGroup a => option_map S.EGroup (erase G a)
-  | EAssert t a => match erase G a, sty_of t with Some a', Some s => Some (S.EAssert a' s) | _, _ => None end
+  | EDot _ l _ => option_map TypesSyntax.EDot (erase G l)
+  | EGroup a => option_map TypesSyntax.EGroup (erase G a)
+  | EAssert t a => match erase G a, sty_of t with Some a', Some s => Some (TypesSyntax.EAssert a' s) | _, _ => None end
   end.
 
 Section Erases.
   Context (G : tyenv).
-  Fixpoint erases (es : list expr) : option (list S.expr) :=
+  Fixpoint erases (es : list expr) : option (list TypesSyntax.expr) :=
     match es with
     | [] => Some []
     | x :: r => match erase G x, erases r with Some a, Some b => Some (a :: b) | _, _ => None end
     end.
-  Fixpoint erasep (ps : list (str * expr)) : option (list S.expr) :=
+  Fixpoint erasep (ps : list (str * expr)) : option (list TypesSyntax.expr) :=
     match ps with
     | [] => Some []
     | (_, x) :: r => match erase G x, erasep r with Some a, Some b => Some (a :: b) | _, _ => None end
     end.
-  Definition eraseo (o : option expr) : option (option S.expr) :=
+  Definition eraseo (o : option expr) : option (option TypesSyntax.expr) :=
     match o with None => Some None | Some x => option_map Some (erase G x) end.
 End Erases.
 
-Lemma erase_EArr G t es : erase G (EArr t es) = option_map S.EArr (erases G es).
+Lemma erase_EArr G t es : erase G (EArr t es) = option_map TypesSyntax.EArr (erases G es).
 Proof. reflexivity. Qed.
-Lemma erase_EMap G t ps : erase G (EMap t ps) = option_map S.EMap (erasep G ps).
+Lemma erase_EMap G t ps : erase G (EMap t ps) = option_map TypesSyntax.EMap (erasep G ps).
 Proof. reflexivity. Qed.
 Lemma erase_ESlice G t l lo hi : erase G (ESlice t l lo hi) =
       match erase G l, eraseo G lo, eraseo G hi with
-      | Some a, Some b, Some c => Some (S.ESlice a b c)
+      | Some a, Some b, Some c => Some (TypesSyntax.ESlice a b c)
       | _, _, _ => None
       end.
 Proof. reflexivity. Qed.
@@ -437,14 +435,14 @@ Lemma ty_ann_sty t : ty_ann t = true -> exists s, sty_of t = Some s /\ ty_of s =
 Proof. unfold ty_ann. intros H. apply andb_true_iff in H as [H _]. apply ty_value_sty; auto. Qed.
 
 (* joining elements that all have the same type gives that type *)
-Lemma sjoin_same k1 k2 u : snd (Sp.sjoin (k1, u) (k2, u)) = u.
+Lemma sjoin_same k1 k2 u : snd (TypesSpec.sjoin (k1, u) (k2, u)) = u.
 Proof.
   destruct k1, k2; simpl; try rewrite TypesSpecProofs.conv_b_refl; try rewrite sty_eqb_refl; simpl; auto.
-  unfold Sp.cjoin. destruct u; simpl; try rewrite !sty_eqb_refl; reflexivity.
+  unfold TypesSpec.cjoin. destruct u; simpl; try rewrite !sty_eqb_refl; reflexivity.
 Qed.
 
 Lemma fold_sjoin_same u : forall l x, snd x = u -> Forall (fun y => snd y = u) l ->
-  snd (fold_left Sp.sjoin l x) = u.
+  snd (fold_left TypesSpec.sjoin l x) = u.
 Proof.
   induction l as [|y l IH]; intros x Hx Hall; simpl; auto.
   inversion Hall; subst. apply IH; auto. destruct x, y; simpl in *; subst. apply sjoin_same.
@@ -453,12 +451,12 @@ Qed.
 (* ---------- forward: a Static-typed coercion-free tree is typed by the specification ---------- *)
 Definition spec_typed (F : list funcdef) (G : tyenv) (A : expr) : Prop :=
   forall t, ety F G A = Some t -> plain F G A = true ->
-  exists e k s, erase G A = Some e /\ Sp.spec_tc e = Some (k, s) /\ t = ty_of s.
+  exists e k s, erase G A = Some e /\ TypesSpec.spec_tc e = Some (k, s) /\ t = ty_of s.
 
 Lemma elems_spec F G es :
   Forall (spec_typed F G) es ->
   forall ts, etys F G es = Some ts -> plains F G es = true ->
-  exists el ks, erases G es = Some el /\ Sp.all_some (map Sp.spec_tc el) = Some ks /\
+  exists el ks, erases G es = Some el /\ TypesSpec.all_some (map TypesSpec.spec_tc el) = Some ks /\
                 map (fun x => ty_of (snd x)) ks = ts.
 Proof.
   induction 1 as [|A es HA _ IH]; intros ts Ht Hp.
@@ -475,7 +473,7 @@ Qed.
 Lemma pairs_spec F G ps :
   Forall (fun p => spec_typed F G (snd p)) ps ->
   forall ts, etyps F G ps = Some ts -> plainp F G ps = true ->
-  exists el ks, erasep G ps = Some el /\ Sp.all_some (map Sp.spec_tc el) = Some ks /\
+  exists el ks, erasep G ps = Some el /\ TypesSpec.all_some (map TypesSpec.spec_tc el) = Some ks /\
                 map (fun x => ty_of (snd x)) ks = ts.
 Proof.
   induction 1 as [|[key A] ps HA _ IH]; intros ts Ht Hp.
@@ -489,7 +487,7 @@ Proof.
     repeat split; auto. congruence.
 Qed.
 
-Lemma all_same u : forall ks, forallb (ty_eqb (ty_of u)) (map (fun x : Sp.kind * S.sty => ty_of (snd x)) ks) = true ->
+Lemma all_same u : forall ks, forallb (ty_eqb (ty_of u)) (map (fun x : TypesSpec.kind * TypesSyntax.sty => ty_of (snd x)) ks) = true ->
   Forall (fun y => snd y = u) ks.
 Proof.
   induction ks as [|x ks IH]; simpl; intros H; constructor; apply andb_true_iff in H as [H1 H2]; auto.
@@ -499,7 +497,7 @@ Qed.
 Lemma opt_spec F G o :
   (forall x, o = Some x -> spec_typed F G x) -> etyo F G o = true -> plaino F G o = true ->
   exists eo, eraseo G o = Some eo /\
-    match eo with None => True | Some x => exists k, Sp.spec_tc x = Some (k, S.SNum) end.
+    match eo with None => True | Some x => exists k, TypesSpec.spec_tc x = Some (k, TypesSyntax.SNum) end.
 Proof.
   intros H Ht Hp. destruct o as [x|]; simpl in *.
   - apply opt_ty_eqb_some in Ht. destruct (H x eq_refl TNum Ht Hp) as (e & k & s & He & Hs & Hts).
@@ -510,21 +508,21 @@ Qed.
 Theorem static_to_spec F G : forall A, spec_typed F G A.
 Proof.
   induction A using expr_ind'; intros ty0 Hty Hp.
-  - inversion Hty; subst. exists S.ELitNum, Sp.KConst, S.SNum. auto.
-  - inversion Hty; subst. exists S.ELitStr, Sp.KConst, S.SString. auto.
-  - inversion Hty; subst. exists S.ELitBool, Sp.KConst, S.SBool. auto.
+  - inversion Hty; subst. exists TypesSyntax.ELitNum, TypesSpec.KConst, TypesSyntax.SNum. auto.
+  - inversion Hty; subst. exists TypesSyntax.ELitStr, TypesSpec.KConst, TypesSyntax.SString. auto.
+  - inversion Hty; subst. exists TypesSyntax.ELitBool, TypesSpec.KConst, TypesSyntax.SBool. auto.
   - (* variable *)
     cbn [ety] in Hty.
     match type of Hty with (if ?c then _ else _) = _ => destruct c eqn:Ec; inversion Hty; subst end.
     apply andb_true_iff in Ec as [Ec Ec3]. apply andb_true_iff in Ec as [Ec1 Ec2].
     apply opt_ty_eqb_some in Ec2. destruct (ty_ann_sty _ Ec3) as (s & Hs & Hts).
-    exists (S.EVar s), Sp.KVar, s. cbn [erase]. rewrite Ec2, Hs. simpl. auto.
+    exists (TypesSyntax.EVar s), TypesSpec.KVar, s. cbn [erase]. rewrite Ec2, Hs. simpl. auto.
   - discriminate.
   - (* array literal *)
     rewrite ety_EArr in Hty. rewrite plain_EArr in Hp. rewrite erase_EArr.
     destruct es as [|x es].
     + destruct t; try discriminate. inversion Hty; subst.
-      exists (S.EArr []), Sp.KConst, S.SEmptyArr. simpl. auto.
+      exists (TypesSyntax.EArr []), TypesSpec.KConst, TypesSyntax.SEmptyArr. simpl. auto.
     + destruct t; try discriminate.
       destruct (etys F G (x :: es)) as [ts|] eqn:Ets; [|discriminate].
       match type of Hty with (if ?c then _ else _) = _ => destruct c eqn:Ec; inversion Hty; subst end.
@@ -532,15 +530,15 @@ Proof.
       destruct (elems_spec F G (x :: es) H ts Ets Hp) as (el & ks & Hel & Hks & Hm).
       destruct (ty_ann_sty _ Ec2) as (s0 & Hs & Hts). destruct s0 as [| | | |s|s| |]; try discriminate. simpl in Hts. inversion Hts; subst t.
       rewrite Hel. simpl. rewrite <- Hm in Ec1. apply all_same in Ec1.
-      destruct ks as [|k0 ks]; [destruct el; simpl in Hks; [discriminate Hel || (cbn [erases] in Hel; destruct (erase G x), (erases G es); discriminate)|destruct (Sp.spec_tc e); try discriminate; destruct (Sp.all_some (map Sp.spec_tc el)); discriminate]|].
+      destruct ks as [|k0 ks]; [destruct el; simpl in Hks; [discriminate Hel || (cbn [erases] in Hel; destruct (erase G x), (erases G es); discriminate)|destruct (TypesSpec.spec_tc e); try discriminate; destruct (TypesSpec.all_some (map TypesSpec.spec_tc el)); discriminate]|].
       inversion Ec1 as [|? ? Hk0 Hks'].
-      eexists _, _, (S.SArr s). split; [reflexivity|]. split; [|reflexivity].
-      cbn [Sp.spec_tc]. rewrite Hks. rewrite fold_sjoin_same with (u := s); auto.
+      eexists _, _, (TypesSyntax.SArr s). split; [reflexivity|]. split; [|reflexivity].
+      cbn [TypesSpec.spec_tc]. rewrite Hks. rewrite fold_sjoin_same with (u := s); auto.
   - (* map literal *)
     rewrite ety_EMap in Hty. rewrite plain_EMap in Hp. rewrite erase_EMap.
     destruct ps as [|p ps].
     + destruct t; try discriminate. inversion Hty; subst.
-      exists (S.EMap []), Sp.KConst, S.SEmptyMap. simpl. auto.
+      exists (TypesSyntax.EMap []), TypesSpec.KConst, TypesSyntax.SEmptyMap. simpl. auto.
     + destruct t; try discriminate.
       destruct (etyps F G (p :: ps)) as [ts|] eqn:Ets; [|discriminate].
       match type of Hty with (if ?c then _ else _) = _ => destruct c eqn:Ec; inversion Hty; subst end.
@@ -550,25 +548,25 @@ Proof.
       rewrite Hel. simpl. rewrite <- Hm in Ec1. apply all_same in Ec1.
       destruct ks as [|k0 ks].
       { destruct p as [key a]. cbn [erasep] in Hel. destruct (erase G a), (erasep G ps); try discriminate.
-        inversion Hel; subst. simpl in Hks. destruct (Sp.spec_tc e); try discriminate.
-        destruct (Sp.all_some (map Sp.spec_tc l)); discriminate. }
+        inversion Hel; subst. simpl in Hks. destruct (TypesSpec.spec_tc e); try discriminate.
+        destruct (TypesSpec.all_some (map TypesSpec.spec_tc l)); discriminate. }
       inversion Ec1 as [|? ? Hk0 Hks'].
-      eexists _, _, (S.SMap s). split; [reflexivity|]. split; [|reflexivity].
-      cbn [Sp.spec_tc]. rewrite Hks. rewrite fold_sjoin_same with (u := s); auto.
+      eexists _, _, (TypesSyntax.SMap s). split; [reflexivity|]. split; [|reflexivity].
+      cbn [TypesSpec.spec_tc]. rewrite Hks. rewrite fold_sjoin_same with (u := s); auto.
   - (* call: its result type *)
     rewrite ety_ECall in Hty. cbn [plain] in Hp.
     destruct (lookup_sig F n) as [sg|]; [|discriminate].
     destruct (etys F G args) as [ts|]; [|discriminate].
     match type of Hty with (if ?c then _ else _) = _ => destruct c eqn:Ec; inversion Hty; subst end.
     destruct (ty_value_sty _ Hp) as (s & Hs & Hts).
-    exists (S.ECall s), Sp.KVar, s. cbn [erase]. rewrite Hs. simpl. auto.
+    exists (TypesSyntax.ECall s), TypesSpec.KVar, s. cbn [erase]. rewrite Hs. simpl. auto.
   - (* unary *)
     cbn [ety] in Hty. cbn [plain] in Hp.
     destruct (ety F G A) as [ta|] eqn:Ea; [|destruct op; discriminate].
     destruct (IHA ta Ea Hp) as (e & k & s & He & Hs & ->).
     cbn [erase]. rewrite He. simpl.
     destruct op, s; simpl in Hty; try discriminate; inversion Hty; subst;
-      eexists _, k, _; (split; [reflexivity|]); cbn [Sp.spec_tc]; rewrite Hs; simpl; auto.
+      eexists _, k, _; (split; [reflexivity|]); cbn [TypesSpec.spec_tc]; rewrite Hs; simpl; auto.
   - (* binary *)
     cbn [ety] in Hty. cbn [plain] in Hp.
     apply andb_true_iff in Hp as [Hp Hp3]. apply andb_true_iff in Hp as [Hp1 Hp2].
@@ -580,7 +578,7 @@ Proof.
     destruct (IHA2 tb Eb Hp2) as (e2 & k2 & s2 & He2 & Hs2 & ->).
     destruct (bin_ty_spec _ _ _ _ Hp3) as (s & Hop & ->).
     cbn [erase]. rewrite He1, He2.
-    eexists _, _, s. split; [reflexivity|]. cbn [Sp.spec_tc]. rewrite Hs1, Hs2, Hop. auto.
+    eexists _, _, s. split; [reflexivity|]. cbn [TypesSpec.spec_tc]. rewrite Hs1, Hs2, Hop. auto.
   - (* index *)
     cbn [ety] in Hty. cbn [plain] in Hp. apply andb_true_iff in Hp as [Hp1 Hp2].
     destruct (ety F G A1) as [ta|] eqn:Ea; [|discriminate].
@@ -591,19 +589,19 @@ Proof.
     destruct s1; simpl in Hty; try discriminate; destruct s2; simpl in Hty; try discriminate.
     + match type of Hty with (if ?c then _ else _) = _ => destruct c eqn:Ec; inversion Hty; subst end.
       destruct ty0; try discriminate.
-      eexists _, _, S.SString. split; [reflexivity|]. cbn [Sp.spec_tc]. rewrite Hs1, Hs2. simpl. auto.
+      eexists _, _, TypesSyntax.SString. split; [reflexivity|]. cbn [TypesSpec.spec_tc]. rewrite Hs1, Hs2. simpl. auto.
     + match type of Hty with (if ?c then _ else _) = _ => destruct c eqn:Ec; inversion Hty; subst end.
       apply andb_true_iff in Ec as [Ec _]. apply ty_eqb_true in Ec.
-      eexists _, _, s1. split; [reflexivity|]. cbn [Sp.spec_tc]. rewrite Hs1, Hs2. simpl. auto.
+      eexists _, _, s1. split; [reflexivity|]. cbn [TypesSpec.spec_tc]. rewrite Hs1, Hs2. simpl. auto.
     + match type of Hty with (if ?c then _ else _) = _ => destruct c eqn:Ec; inversion Hty; subst end.
       apply andb_true_iff in Ec as [Ec _]. apply ty_eqb_true in Ec.
-      eexists _, _, s1. split; [reflexivity|]. cbn [Sp.spec_tc]. rewrite Hs1, Hs2. simpl. auto.
+      eexists _, _, s1. split; [reflexivity|]. cbn [TypesSpec.spec_tc]. rewrite Hs1, Hs2. simpl. auto.
   - (* slice *)
     rewrite ety_ESlice in Hty. rewrite plain_ESlice in Hp. rewrite erase_ESlice.
     apply andb_true_iff in Hp as [Hp Hp3]. apply andb_true_iff in Hp as [Hp1 Hp2].
     destruct (ety F G A) as [ta|] eqn:Ea; [|discriminate].
     destruct (IHA ta Ea Hp1) as (e1 & k1 & s1 & He1 & Hs1 & ->).
-    assert (Hc : ty_eqb (ty_of s1) t && etyo F G lo && etyo F G hi = true /\ ty0 = t /\ Sp.slice_type_s s1 = Some s1).
+    assert (Hc : ty_eqb (ty_of s1) t && etyo F G lo && etyo F G hi = true /\ ty0 = t /\ TypesSpec.slice_type_s s1 = Some s1).
     { destruct s1; simpl in Hty; try discriminate;
         match type of Hty with (if ?c then _ else _) = _ => destruct c eqn:Ec; inversion Hty; subst end; auto. }
     destruct Hc as (Hc & -> & Hsl). apply andb_true_iff in Hc as [Hc Hc3]. apply andb_true_iff in Hc as [Hc1 Hc2].
@@ -611,14 +609,14 @@ Proof.
     destruct (opt_spec F G lo H Hc2 Hp2) as (elo & Helo & Hlo).
     destruct (opt_spec F G hi H0 Hc3 Hp3) as (ehi & Hehi & Hhi).
     rewrite He1, Helo, Hehi.
-    assert (BD : forall eo, match eo with None => True | Some x => exists k, Sp.spec_tc x = Some (k, S.SNum) end ->
+    assert (BD : forall eo, match eo with None => True | Some x => exists k, TypesSpec.spec_tc x = Some (k, TypesSyntax.SNum) end ->
                exists kb, match eo with
-                          | None => Some Sp.KConst
-                          | Some x => match Sp.spec_tc x with Some (k', S.SNum) => Some k' | _ => None end
+                          | None => Some TypesSpec.KConst
+                          | Some x => match TypesSpec.spec_tc x with Some (k', TypesSyntax.SNum) => Some k' | _ => None end
                           end = Some kb).
     { intros [x|] Hx; [destruct Hx as (k & ->); eauto|eauto]. }
     destruct (BD _ Hlo) as (kl & Hkl). destruct (BD _ Hhi) as (kh & Hkh).
-    eexists _, _, s1. split; [reflexivity|]. cbn [Sp.spec_tc]. rewrite Hs1, Hkl, Hkh, Hsl. auto.
+    eexists _, _, s1. split; [reflexivity|]. cbn [TypesSpec.spec_tc]. rewrite Hs1, Hkl, Hkh, Hsl. auto.
   - (* dot *)
     cbn [ety] in Hty. cbn [plain] in Hp.
     destruct (ety F G A) as [ta|] eqn:Ea; [|discriminate].
@@ -627,11 +625,11 @@ Proof.
     destruct s1; simpl in Hty; try discriminate.
     match type of Hty with (if ?c then _ else _) = _ => destruct c eqn:Ec; inversion Hty; subst end.
     apply andb_true_iff in Ec as [Ec _]. apply ty_eqb_true in Ec.
-    eexists _, _, s1. split; [reflexivity|]. cbn [Sp.spec_tc]. rewrite Hs1. simpl. auto.
+    eexists _, _, s1. split; [reflexivity|]. cbn [TypesSpec.spec_tc]. rewrite Hs1. simpl. auto.
   - (* group *)
     cbn [ety] in Hty. cbn [plain] in Hp.
     destruct (IHA ty0 Hty Hp) as (e1 & k1 & s1 & He1 & Hs1 & ->).
-    cbn [erase]. rewrite He1. simpl. eexists _, _, s1. split; [reflexivity|]. cbn [Sp.spec_tc]. eauto.
+    cbn [erase]. rewrite He1. simpl. eexists _, _, s1. split; [reflexivity|]. cbn [TypesSpec.spec_tc]. eauto.
   - (* type assertion *)
     cbn [ety] in Hty. cbn [plain] in Hp.
     destruct (ety F G A) as [ta|] eqn:Ea; [|discriminate].
@@ -644,20 +642,20 @@ Proof.
     destruct (ty_value_sty _ Hv) as (s & Hs & Hts). subst ty0.
     rewrite assert_spec in Ec. apply andb_true_iff in Ec as [Ec _].
     cbn [erase]. rewrite He1, Hs.
-    eexists _, _, s. split; [reflexivity|]. cbn [Sp.spec_tc]. rewrite Hs1. rewrite Ec. auto.
+    eexists _, _, s. split; [reflexivity|]. cbn [TypesSpec.spec_tc]. rewrite Hs1. rewrite Ec. auto.
 Qed.
 
 (* ---------- converse: a tree annotated with the specification's types is Static-typed ---------- *)
 (* the specification's type of an annotated node (of its erasure) *)
-Definition spec_ty_of (G : tyenv) (A : expr) : option S.sty :=
-  match erase G A with Some e => option_map snd (Sp.spec_tc e) | None => None end.
+Definition spec_ty_of (G : tyenv) (A : expr) : option TypesSyntax.sty :=
+  match erase G A with Some e => option_map snd (TypesSpec.spec_tc e) | None => None end.
 
 Definition sty_is (G : tyenv) (A : expr) (t : ty) : bool :=
   match spec_ty_of G A with Some s => ty_eqb (ty_of s) t | None => false end.
 
-Definition shallow_b (op : binop) (a b : S.sty) : bool :=
+Definition shallow_b (op : binop) (a b : TypesSyntax.sty) : bool :=
   match op with
-  | BPlus => negb (Sp.is_array_b a) || S.sty_eqb a b || S.sty_eqb a S.SEmptyArr || S.sty_eqb b S.SEmptyArr
+  | BPlus => negb (TypesSpec.is_array_b a) || TypesSyntax.sty_eqb a b || TypesSyntax.sty_eqb a TypesSyntax.SEmptyArr || TypesSyntax.sty_eqb b TypesSyntax.SEmptyArr
   | _ => true
   end.
 
@@ -679,8 +677,8 @@ Section ArgAnn.
         | EAny a' t' => ann a' && sty_is G a' t' && negb (is_any t') && ty_small t'
         | _ => ann a && sty_is G a TAny
         end
-    | TGenArr => ann a && match spec_ty_of G a with Some s => Sp.is_array_b s && ty_small (ty_of s) | None => false end
-    | TGenMap => ann a && match spec_ty_of G a with Some s => Sp.is_map_b s && ty_small (ty_of s) | None => false end
+    | TGenArr => ann a && match spec_ty_of G a with Some s => TypesSpec.is_array_b s && ty_small (ty_of s) | None => false end
+    | TGenMap => ann a && match spec_ty_of G a with Some s => TypesSpec.is_map_b s && ty_small (ty_of s) | None => false end
     | _ => ann a && sty_is G a p && ty_small p
     end.
   Fixpoint args_ann (ps : list ty) (args : list expr) {struct args} : bool :=
@@ -694,6 +692,9 @@ Section ArgAnn.
     Fixpoint vargs_ann (args : list expr) : bool :=
       match args with [] => true | a :: r => arg_ann v a && vargs_ann r end.
   End VArgs.
+  (* the values of a map literal of type {}any *)
+  Fixpoint pvargs_ann (ps : list (str * expr)) : bool :=
+    match ps with [] => true | (_, x) :: r => arg_ann TAny x && pvargs_ann r end.
   Definition sig_ann (sg : fsig) (args : list expr) : bool :=
     match fs_var sg with
     | Some v => match fs_params sg with [] => vargs_ann v args | _ => false end
@@ -718,8 +719,8 @@ Fixpoint ann_ok (F : list funcdef) (G : tyenv) (A : expr) {struct A} : bool :=
         | EAny a' t' => ann_ok F G a' && sty_is G a' t' && negb (is_any t') && ty_small t'
         | _ => ann_ok F G a && sty_is G a TAny
         end
-    | TGenArr => ann_ok F G a && match spec_ty_of G a with Some s => Sp.is_array_b s && ty_small (ty_of s) | None => false end
-    | TGenMap => ann_ok F G a && match spec_ty_of G a with Some s => Sp.is_map_b s && ty_small (ty_of s) | None => false end
+    | TGenArr => ann_ok F G a && match spec_ty_of G a with Some s => TypesSpec.is_array_b s && ty_small (ty_of s) | None => false end
+    | TGenMap => ann_ok F G a && match spec_ty_of G a with Some s => TypesSpec.is_map_b s && ty_small (ty_of s) | None => false end
     | _ => ann_ok F G a && sty_is G a p && ty_small p
     end in
   let argsf := fix go (ps : list ty) (args : list expr) {struct args} : bool :=
@@ -730,6 +731,8 @@ Fixpoint ann_ok (F : list funcdef) (G : tyenv) (A : expr) {struct A} : bool :=
     end in
   let argsv (v : ty) := fix go (args : list expr) : bool :=
     match args with [] => true | a :: r => arg1 v a && go r end in
+  let pargsv := fix go (ps : list (str * expr)) : bool :=
+    match ps with [] => true | (_, x) :: r => arg1 TAny x && go r end in
   match A with
   | ENum _ | EStr _ | EBool _ => true
   | EVar n t => negb (str_eqb n underscore) && opt_ty_eqb (slookup n G) t && ty_small t
@@ -737,13 +740,13 @@ Fixpoint ann_ok (F : list funcdef) (G : tyenv) (A : expr) {struct A} : bool :=
   | EArr t es =>
       match es, t with
       | [], TEmptyArr => true
-      | _ :: _, TArr u => elems u es && ty_small t
+      | _ :: _, TArr u => (elems u es || (is_any u && argsv TAny es && sty_is G A t)) && ty_small t
       | _, _ => false
       end
   | EMap t ps =>
       match ps, t with
       | [], TEmptyMap => true
-      | _ :: _, TMap u => pelems u ps && ty_small t && keys_nodup (map fst ps)
+      | _ :: _, TMap u => (pelems u ps || (is_any u && pargsv ps && sty_is G A t)) && ty_small t && keys_nodup (map fst ps)
       | _, _ => false
       end
   | ECall name t args =>
@@ -782,14 +785,17 @@ End AnnLists.
 Lemma ann_ok_EArr F G t es : ann_ok F G (EArr t es) =
       match es, t with
       | [], TEmptyArr => true
-      | _ :: _, TArr u => elems_ann F G u es && ty_small t
+      | _ :: _, TArr u =>
+          (elems_ann F G u es || (is_any u && vargs_ann (ann_ok F G) G TAny es && sty_is G (EArr t es) t)) && ty_small t
       | _, _ => false
       end.
 Proof. destruct es, t; reflexivity. Qed.
 Lemma ann_ok_EMap F G t ps : ann_ok F G (EMap t ps) =
       match ps, t with
       | [], TEmptyMap => true
-      | _ :: _, TMap u => pelems_ann F G u ps && ty_small t && keys_nodup (map fst ps)
+      | _ :: _, TMap u =>
+          (pelems_ann F G u ps || (is_any u && pvargs_ann (ann_ok F G) G ps && sty_is G (EMap t ps) t))
+          && ty_small t && keys_nodup (map fst ps)
       | _, _ => false
       end.
 Proof. destruct ps, t; reflexivity. Qed.
@@ -807,21 +813,21 @@ Lemma ty_value_ty_of s : ty_value (ty_of s) = true.
 Proof. induction s; simpl; auto. Qed.
 
 Lemma sty_is_inv G A t : sty_is G A t = true ->
-  exists e k s, erase G A = Some e /\ Sp.spec_tc e = Some (k, s) /\ t = ty_of s.
+  exists e k s, erase G A = Some e /\ TypesSpec.spec_tc e = Some (k, s) /\ t = ty_of s.
 Proof.
   unfold sty_is, spec_ty_of. destruct (erase G A) as [e|]; [|discriminate].
-  destruct (Sp.spec_tc e) as [[k s]|] eqn:Es; [|discriminate]. simpl. intros H. apply ty_eqb_true in H.
+  destruct (TypesSpec.spec_tc e) as [[k s]|] eqn:Es; [|discriminate]. simpl. intros H. apply ty_eqb_true in H.
   exists e, k, s. auto.
 Qed.
 
 Lemma sty_is_eq G A t e k s :
-  sty_is G A t = true -> erase G A = Some e -> Sp.spec_tc e = Some (k, s) -> t = ty_of s.
+  sty_is G A t = true -> erase G A = Some e -> TypesSpec.spec_tc e = Some (k, s) -> t = ty_of s.
 Proof.
   intros H He Hs. destruct (sty_is_inv _ _ _ H) as (e' & k' & s' & He' & Hs' & ->). congruence.
 Qed.
 
 Definition ann_typed (F : list funcdef) (G : tyenv) (A : expr) : Prop :=
-  ann_ok F G A = true -> forall e k s, erase G A = Some e -> Sp.spec_tc e = Some (k, s) ->
+  ann_ok F G A = true -> forall e k s, erase G A = Some e -> TypesSpec.spec_tc e = Some (k, s) ->
   ety F G A = Some (ty_of s).
 
 Lemma ann_typed_by_sty F G A t : ann_typed F G A -> ann_ok F G A = true -> sty_is G A t = true -> ety F G A = Some t.
@@ -879,14 +885,14 @@ Proof.
   - (* generic array *)
     apply andb_true_iff in Ha as [Ha1 Ha2]. unfold spec_ty_of in Ha2.
     destruct (erase G a) as [e|] eqn:He; [|discriminate].
-    destruct (Sp.spec_tc e) as [[k s]|] eqn:Hs; [|discriminate]. simpl in Ha2.
+    destruct (TypesSpec.spec_tc e) as [[k s]|] eqn:Hs; [|discriminate]. simpl in Ha2.
     apply andb_true_iff in Ha2 as [Ha2 Ha3].
     exists (ty_of s). split; [eapply H1; eauto|].
     unfold arg_ok, ty_ann. destruct s; try discriminate; simpl in *; rewrite ?ty_value_ty_of, ?Ha3; reflexivity.
   - (* generic map *)
     apply andb_true_iff in Ha as [Ha1 Ha2]. unfold spec_ty_of in Ha2.
     destruct (erase G a) as [e|] eqn:He; [|discriminate].
-    destruct (Sp.spec_tc e) as [[k s]|] eqn:Hs; [|discriminate]. simpl in Ha2.
+    destruct (TypesSpec.spec_tc e) as [[k s]|] eqn:Hs; [|discriminate]. simpl in Ha2.
     apply andb_true_iff in Ha2 as [Ha2 Ha3].
     exists (ty_of s). split; [eapply H1; eauto|].
     unfold arg_ok, ty_ann. destruct s; try discriminate; simpl in *; rewrite ?ty_value_ty_of, ?Ha3; reflexivity.
@@ -923,7 +929,7 @@ Proof.
 Qed.
 
 Lemma elems_same F G t : forall es el ks,
-  elems_ann F G t es = true -> erases G es = Some el -> Sp.all_some (map Sp.spec_tc el) = Some ks ->
+  elems_ann F G t es = true -> erases G es = Some el -> TypesSpec.all_some (map TypesSpec.spec_tc el) = Some ks ->
   Forall (fun y => ty_of (snd y) = t) ks.
 Proof.
   induction es as [|x es IH]; intros el ks Ha He Hk.
@@ -931,13 +937,13 @@ Proof.
   - cbn [elems_ann] in Ha. apply andb_true_iff in Ha as [Ha Ha3]. apply andb_true_iff in Ha as [_ Ha2].
     cbn [erases] in He. destruct (erase G x) as [e|] eqn:Ex; [|discriminate].
     destruct (erases G es) as [el'|] eqn:Ees; [|discriminate]. inversion He; subst.
-    simpl in Hk. destruct (Sp.spec_tc e) as [[k st]|] eqn:Est; [|discriminate].
-    destruct (Sp.all_some (map Sp.spec_tc el')) as [ks'|] eqn:Eks; [|discriminate]. inversion Hk; subst.
+    simpl in Hk. destruct (TypesSpec.spec_tc e) as [[k st]|] eqn:Est; [|discriminate].
+    destruct (TypesSpec.all_some (map TypesSpec.spec_tc el')) as [ks'|] eqn:Eks; [|discriminate]. inversion Hk; subst.
     constructor; [simpl; symmetry; eapply sty_is_eq; eauto|eauto].
 Qed.
 
 Lemma pelems_same F G t : forall ps el ks,
-  pelems_ann F G t ps = true -> erasep G ps = Some el -> Sp.all_some (map Sp.spec_tc el) = Some ks ->
+  pelems_ann F G t ps = true -> erasep G ps = Some el -> TypesSpec.all_some (map TypesSpec.spec_tc el) = Some ks ->
   Forall (fun y => ty_of (snd y) = t) ks.
 Proof.
   induction ps as [|[key x] ps IH]; intros el ks Ha He Hk.
@@ -945,22 +951,22 @@ Proof.
   - cbn [pelems_ann] in Ha. apply andb_true_iff in Ha as [Ha Ha3]. apply andb_true_iff in Ha as [_ Ha2].
     cbn [erasep] in He. destruct (erase G x) as [e|] eqn:Ex; [|discriminate].
     destruct (erasep G ps) as [el'|] eqn:Ees; [|discriminate]. inversion He; subst.
-    simpl in Hk. destruct (Sp.spec_tc e) as [[k st]|] eqn:Est; [|discriminate].
-    destruct (Sp.all_some (map Sp.spec_tc el')) as [ks'|] eqn:Eks; [|discriminate]. inversion Hk; subst.
+    simpl in Hk. destruct (TypesSpec.spec_tc e) as [[k st]|] eqn:Est; [|discriminate].
+    destruct (TypesSpec.all_some (map TypesSpec.spec_tc el')) as [ks'|] eqn:Eks; [|discriminate]. inversion Hk; subst.
     constructor; [simpl; symmetry; eapply sty_is_eq; eauto|eauto].
 Qed.
 
-Lemma join_same (t : ty) y ks : Forall (fun z : Sp.kind * S.sty => ty_of (snd z) = t) (y :: ks) ->
-  ty_of (snd (fold_left Sp.sjoin ks y)) = t.
+Lemma join_same (t : ty) y ks : Forall (fun z : TypesSpec.kind * TypesSyntax.sty => ty_of (snd z) = t) (y :: ks) ->
+  ty_of (snd (fold_left TypesSpec.sjoin ks y)) = t.
 Proof.
   intros H. inversion H; subst. rewrite fold_sjoin_same with (u := snd y); auto.
   eapply Forall_impl; [|exact H3]. cbv beta. intros z Hz. apply ty_of_inj. congruence.
 Qed.
 
-Lemma all_some_len {A} : forall (l : list (option A)) ks, Sp.all_some l = Some ks -> List.length ks = List.length l.
+Lemma all_some_len {A} : forall (l : list (option A)) ks, TypesSpec.all_some l = Some ks -> List.length ks = List.length l.
 Proof.
   induction l as [|[x|] l IH]; intros ks H; simpl in H; try discriminate; [inversion H; reflexivity|].
-  destruct (Sp.all_some l); [|discriminate]. inversion H; subst. simpl. f_equal. auto.
+  destruct (TypesSpec.all_some l); [|discriminate]. inversion H; subst. simpl. f_equal. auto.
 Qed.
 
 Lemma erasep_inv G : forall ps el, erasep G ps = Some el -> List.length el = List.length ps.
@@ -969,29 +975,48 @@ Proof.
   destruct (erase G x), (erasep G ps) eqn:E; try discriminate. inversion H; subst. simpl. f_equal. auto.
 Qed.
 
-Lemma nonempty_ks {X} (n : nat) (el : list S.expr) (l : list X) :
-  List.length el = List.length l -> l <> [] -> Sp.all_some (map Sp.spec_tc el) = Some [] -> False.
+Lemma nonempty_ks {X} (n : nat) (el : list TypesSyntax.expr) (l : list X) :
+  List.length el = List.length l -> l <> [] -> TypesSpec.all_some (map TypesSpec.spec_tc el) = Some [] -> False.
 Proof.
   intros Hl Hn H. apply all_some_len in H. rewrite map_length in H. simpl in H.
   destruct l; [congruence|]. rewrite <- H in Hl. discriminate.
 Qed.
 
-Definition sbound (o : option S.expr) : option Sp.kind :=
+Definition sbound (o : option TypesSyntax.expr) : option TypesSpec.kind :=
   match o with
-  | None => Some Sp.KConst
-  | Some x => match Sp.spec_tc x with Some (k', S.SNum) => Some k' | _ => None end
+  | None => Some TypesSpec.KConst
+  | Some x => match TypesSpec.spec_tc x with Some (k', TypesSyntax.SNum) => Some k' | _ => None end
   end.
 
-Lemma spec_tc_ESlice l s e' : Sp.spec_tc (S.ESlice l s e') =
-  match Sp.spec_tc l with
+Lemma spec_tc_ESlice l s e' : TypesSpec.spec_tc (TypesSyntax.ESlice l s e') =
+  match TypesSpec.spec_tc l with
   | Some (k, a) =>
-      match sbound s, sbound e', Sp.slice_type_s a with
-      | Some k1, Some k2, Some t => Some (Sp.kjoin k (Sp.kjoin k1 k2), t)
+      match sbound s, sbound e', TypesSpec.slice_type_s a with
+      | Some k1, Some k2, Some t => Some (TypesSpec.kjoin k (TypesSpec.kjoin k1 k2), t)
       | _, _, _ => None
       end
   | None => None
   end.
 Proof. reflexivity. Qed.
+
+Lemma pvargs_conv F G : forall ps,
+  Forall (fun p : str * expr => arg_typed F G (snd p)) ps -> pvargs_ann (ann_ok F G) G ps = true ->
+  exists ts, etyps F G ps = Some ts /\ forallb (arg_ok TAny) ts = true.
+Proof.
+  induction ps as [|[key a] ps IH]; intros HF Ha; simpl in Ha.
+  - exists []. auto.
+  - inversion HF; subst. apply andb_true_iff in Ha as [Ha1 Ha2].
+    destruct (arg_conv F G TAny a H1 Ha1) as (ta & Hta & Hok).
+    destruct (IH H2 Ha2) as (ts & Hts & Hoks).
+    exists (ta :: ts). cbn [etyps]. rewrite Hta, Hts. split; [reflexivity|].
+    cbn [forallb]. rewrite Hok, Hoks. reflexivity.
+Qed.
+
+Lemma arg_ok_any_all ts : forallb (arg_ok TAny) ts = true -> forallb (ty_eqb TAny) ts = true.
+Proof.
+  induction ts as [|a ts IH]; [reflexivity|]. cbn [forallb]. intros H. apply andb_true_iff in H as [A B].
+  unfold arg_ok in A. apply andb_true_iff in A as [A _]. rewrite A, (IH B). reflexivity.
+Qed.
 
 Theorem spec_to_static F G : forall A, arg_typed F G A.
 Proof.
@@ -1010,30 +1035,44 @@ Proof.
   - (* the operand of an Any wrapper *)
     intros a' t' Heq. inversion Heq; subst. apply IHA.
   - (* array literal *)
-    intros Ha e k st He Hs. rewrite ann_ok_EArr in Ha. rewrite erase_EArr in He. rewrite ety_EArr.
+    intros Ha e k st He Hs. pose proof He as He0. rewrite ann_ok_EArr in Ha. rewrite erase_EArr in He. rewrite ety_EArr.
     assert (HF : Forall (ann_typed F G) es) by (eapply Forall_impl; [|exact H]; intros a [Ha' _]; exact Ha').
     destruct es as [|x es].
     + destruct t; try discriminate. simpl in He. inversion He; subst. inversion Hs; subst. reflexivity.
     + destruct t; try discriminate. apply andb_true_iff in Ha as [Ha1 Ha2].
+      apply orb_true_iff in Ha1 as [Ha1|Ha1]; cycle 1.
+      { (* a literal of mixed element types: []any, every element wrapped *)
+        apply andb_true_iff in Ha1 as [Ha1 Hst]. apply andb_true_iff in Ha1 as [Hany Hv].
+        destruct t; try discriminate.
+        destruct (vargs_conv F G TAny (x :: es) H Hv) as (ts & Hts & Hok).
+        rewrite Hts, (arg_ok_any_all ts Hok). rewrite <- (sty_is_eq G _ _ e k st Hst He0 Hs).
+        unfold ty_ann. rewrite Ha2. reflexivity. }
       destruct (elems_conv F G t (x :: es) HF Ha1) as (ts & Hts & Hall). rewrite Hts, Hall.
       destruct (erases G (x :: es)) as [el|] eqn:Eel; [|discriminate]. simpl in He. inversion He; subst.
-      cbn [Sp.spec_tc] in Hs.
-      destruct (Sp.all_some (map Sp.spec_tc el)) as [ks|] eqn:Eks; [|discriminate].
+      cbn [TypesSpec.spec_tc] in Hs.
+      destruct (TypesSpec.all_some (map TypesSpec.spec_tc el)) as [ks|] eqn:Eks; [|discriminate].
       pose proof (elems_same F G t _ _ _ Ha1 Eel Eks) as Hsame.
       destruct ks as [|y ks]; [exfalso; eapply (nonempty_ks 0); [eapply erases_inv; eauto|discriminate|eauto]|]. injection Hs as <- <-.
       simpl ty_of. rewrite (join_same t y ks Hsame).
       assert (Hv : ty_value t = true) by (inversion Hsame; subst; apply ty_value_ty_of).
       unfold ty_ann. simpl ty_value. rewrite Hv, Ha2. reflexivity.
   - (* map literal *)
-    intros Ha e k st He Hs. rewrite ann_ok_EMap in Ha. rewrite erase_EMap in He. rewrite ety_EMap.
+    intros Ha e k st He Hs. pose proof He as He0. rewrite ann_ok_EMap in Ha. rewrite erase_EMap in He. rewrite ety_EMap.
     assert (HF : Forall (fun p => ann_typed F G (snd p)) ps) by (eapply Forall_impl; [|exact H]; intros a [Ha' _]; exact Ha').
     destruct ps as [|p ps].
     + destruct t; try discriminate. simpl in He. inversion He; subst. inversion Hs; subst. reflexivity.
     + destruct t; try discriminate. apply andb_true_iff in Ha as [Ha Ha3]. apply andb_true_iff in Ha as [Ha1 Ha2].
+      apply orb_true_iff in Ha1 as [Ha1|Ha1]; cycle 1.
+      { (* a map literal of mixed value types: {}any, every value wrapped *)
+        apply andb_true_iff in Ha1 as [Ha1 Hst]. apply andb_true_iff in Ha1 as [Hany Hv].
+        destruct t; try discriminate.
+        destruct (pvargs_conv F G (p :: ps) H Hv) as (ts & Hts & Hok).
+        rewrite Hts, (arg_ok_any_all ts Hok). rewrite <- (sty_is_eq G _ _ e k st Hst He0 Hs).
+        unfold ty_ann. rewrite Ha2, Ha3. reflexivity. }
       destruct (pelems_conv F G t (p :: ps) HF Ha1) as (ts & Hts & Hall). rewrite Hts, Hall.
       destruct (erasep G (p :: ps)) as [el|] eqn:Eel; [|discriminate]. simpl in He. inversion He; subst.
-      cbn [Sp.spec_tc] in Hs.
-      destruct (Sp.all_some (map Sp.spec_tc el)) as [ks|] eqn:Eks; [|discriminate].
+      cbn [TypesSpec.spec_tc] in Hs.
+      destruct (TypesSpec.all_some (map TypesSpec.spec_tc el)) as [ks|] eqn:Eks; [|discriminate].
       pose proof (pelems_same F G t _ _ _ Ha1 Eel Eks) as Hsame.
       destruct ks as [|y ks]; [exfalso; eapply (nonempty_ks 0); [eapply erasep_inv; eauto|discriminate|eauto]|]. injection Hs as <- <-.
       simpl ty_of. rewrite (join_same t y ks Hsame).
@@ -1053,7 +1092,7 @@ Proof.
   - (* unary *)
     intros Ha e k st He Hs. cbn [ann_ok] in Ha. cbn [erase] in He. destruct IHA as [IHA _].
     destruct (erase G A) as [ea|] eqn:Ea; [|discriminate]. simpl in He. inversion He; subst.
-    cbn [Sp.spec_tc] in Hs. destruct (Sp.spec_tc ea) as [[ka sa]|] eqn:Esa; [|discriminate].
+    cbn [TypesSpec.spec_tc] in Hs. destruct (TypesSpec.spec_tc ea) as [[ka sa]|] eqn:Esa; [|discriminate].
     cbn [ety]. rewrite (IHA Ha _ _ _ Ea Esa).
     destruct op, sa; simpl in Hs; try discriminate; inversion Hs; subst; reflexivity.
   - (* binary *)
@@ -1063,14 +1102,14 @@ Proof.
     apply andb_true_iff in Ha as [Ha Ha3]. apply andb_true_iff in Ha as [Ha1 Ha2].
     unfold spec_ty_of in Ha5.
     destruct (erase G A1) as [e1|] eqn:E1; [|discriminate]. destruct (erase G A2) as [e2|] eqn:E2; [|discriminate].
-    inversion He; subst. cbn [Sp.spec_tc] in Hs.
-    destruct (Sp.spec_tc e1) as [[k1 s1]|] eqn:Es1; [|discriminate].
-    destruct (Sp.spec_tc e2) as [[k2 s2]|] eqn:Es2; [|discriminate]. simpl in Ha5.
-    destruct (Sp.op_type (binop_of op) s1 s2) as [so|] eqn:Eop; inversion Hs; subst.
+    inversion He; subst. cbn [TypesSpec.spec_tc] in Hs.
+    destruct (TypesSpec.spec_tc e1) as [[k1 s1]|] eqn:Es1; [|discriminate].
+    destruct (TypesSpec.spec_tc e2) as [[k2 s2]|] eqn:Es2; [|discriminate]. simpl in Ha5.
+    destruct (TypesSpec.op_type (binop_of op) s1 s2) as [so|] eqn:Eop; inversion Hs; subst.
     assert (Et : t = ty_of st).
     { eapply sty_is_eq; [exact Ha4| |].
       - cbn [erase]. rewrite E1, E2. reflexivity.
-      - cbn [Sp.spec_tc]. rewrite Es1, Es2, Eop. reflexivity. }
+      - cbn [TypesSpec.spec_tc]. rewrite Es1, Es2, Eop. reflexivity. }
     subst t.
     cbn [ety]. rewrite (IHA1 Ha1 _ _ _ E1 Es1), (IHA2 Ha2 _ _ _ E2 Es2).
     pose proof (op_type_static op s1 s2 st Eop (shallow_b_ok _ _ _ Ha5)) as Hok. unfold bin_ok in Hok.
@@ -1080,14 +1119,14 @@ Proof.
     destruct IHA1 as [IHA1 _]. destruct IHA2 as [IHA2 _].
     apply andb_true_iff in Ha as [Ha Ha4]. apply andb_true_iff in Ha as [Ha Ha3]. apply andb_true_iff in Ha as [Ha1 Ha2].
     destruct (erase G A1) as [e1|] eqn:E1; [|discriminate]. destruct (erase G A2) as [e2|] eqn:E2; [|discriminate].
-    inversion He; subst. cbn [Sp.spec_tc] in Hs.
-    destruct (Sp.spec_tc e1) as [[k1 s1]|] eqn:Es1; [|discriminate].
-    destruct (Sp.spec_tc e2) as [[k2 s2]|] eqn:Es2; [|discriminate].
-    destruct (Sp.index_type_s s1 s2) as [so|] eqn:Eop; inversion Hs; subst.
+    inversion He; subst. cbn [TypesSpec.spec_tc] in Hs.
+    destruct (TypesSpec.spec_tc e1) as [[k1 s1]|] eqn:Es1; [|discriminate].
+    destruct (TypesSpec.spec_tc e2) as [[k2 s2]|] eqn:Es2; [|discriminate].
+    destruct (TypesSpec.index_type_s s1 s2) as [so|] eqn:Eop; inversion Hs; subst.
     assert (Et : t = ty_of st).
     { eapply sty_is_eq; [exact Ha4| |].
       - cbn [erase]. rewrite E1, E2. reflexivity.
-      - cbn [Sp.spec_tc]. rewrite Es1, Es2, Eop. reflexivity. }
+      - cbn [TypesSpec.spec_tc]. rewrite Es1, Es2, Eop. reflexivity. }
     subst t.
     cbn [ety]. rewrite (IHA1 Ha1 _ _ _ E1 Es1), (IHA2 Ha2 _ _ _ E2 Es2).
     destruct s1, s2; simpl in Eop; try discriminate; inversion Eop; subst; simpl;
@@ -1099,17 +1138,17 @@ Proof.
     destruct (erase G A) as [e1|] eqn:E1; [|discriminate].
     destruct (eraseo G lo) as [elo|] eqn:Elo; [|discriminate]. destruct (eraseo G hi) as [ehi|] eqn:Ehi; [|discriminate].
     inversion He; subst. rewrite spec_tc_ESlice in Hs.
-    destruct (Sp.spec_tc e1) as [[k1 s1]|] eqn:Es1; [|discriminate].
+    destruct (TypesSpec.spec_tc e1) as [[k1 s1]|] eqn:Es1; [|discriminate].
     assert (BD : forall o eo, (forall x, o = Some x -> arg_typed F G x) -> bound_ann F G o = true -> eraseo G o = Some eo ->
                sbound eo <> None -> etyo F G o = true).
     { intros o eo Ho Hb Heo Hne. destruct o as [x|]; [|reflexivity]. simpl in *.
       destruct (erase G x) as [ex|] eqn:Ex; [|discriminate]. inversion Heo; subst. simpl in Hne.
-      destruct (Sp.spec_tc ex) as [[kx sx]|] eqn:Esx; [|congruence].
+      destruct (TypesSpec.spec_tc ex) as [[kx sx]|] eqn:Esx; [|congruence].
       destruct sx; try congruence. destruct (Ho x eq_refl) as [Hx _].
       rewrite (Hx Hb _ _ _ Ex Esx). reflexivity. }
     destruct (sbound elo) as [kb1|] eqn:B1; [|discriminate].
     destruct (sbound ehi) as [kb2|] eqn:B2; [|discriminate].
-    destruct (Sp.slice_type_s s1) as [so|] eqn:Esl; [|discriminate].
+    destruct (TypesSpec.slice_type_s s1) as [so|] eqn:Esl; [|discriminate].
     inversion Hs; subst.
     assert (Et : t = ty_of st).
     { eapply sty_is_eq; [exact Ha4| |].
@@ -1124,27 +1163,27 @@ Proof.
     rename k into key. intros Ha e k st He Hs. cbn [ann_ok] in Ha. cbn [erase] in He. destruct IHA as [IHA _].
     apply andb_true_iff in Ha as [Ha Ha3]. apply andb_true_iff in Ha as [Ha1 Ha2].
     destruct (erase G A) as [e1|] eqn:E1; [|discriminate]. simpl in He. inversion He; subst.
-    cbn [Sp.spec_tc] in Hs. destruct (Sp.spec_tc e1) as [[k1 s1]|] eqn:Es1; [|discriminate].
-    destruct (Sp.dot_type_s s1) as [so|] eqn:Eop; inversion Hs; subst.
+    cbn [TypesSpec.spec_tc] in Hs. destruct (TypesSpec.spec_tc e1) as [[k1 s1]|] eqn:Es1; [|discriminate].
+    destruct (TypesSpec.dot_type_s s1) as [so|] eqn:Eop; inversion Hs; subst.
     assert (Et : t = ty_of st).
     { eapply sty_is_eq; [exact Ha3| |].
       - cbn [erase]. rewrite E1. reflexivity.
-      - cbn [Sp.spec_tc]. rewrite Es1, Eop. reflexivity. }
+      - cbn [TypesSpec.spec_tc]. rewrite Es1, Eop. reflexivity. }
     subst t. cbn [ety]. rewrite (IHA Ha1 _ _ _ E1 Es1).
     destruct s1; simpl in Eop; try discriminate; inversion Eop; subst; simpl.
     unfold ty_ann. rewrite ty_eqb_same, ty_value_ty_of, Ha2. reflexivity.
   - (* group *)
     intros Ha e k st He Hs. cbn [ann_ok] in Ha. cbn [erase] in He. destruct IHA as [IHA _].
     destruct (erase G A) as [e1|] eqn:E1; [|discriminate]. simpl in He. inversion He; subst.
-    cbn [Sp.spec_tc] in Hs. cbn [ety]. eapply IHA; eauto.
+    cbn [TypesSpec.spec_tc] in Hs. cbn [ety]. eapply IHA; eauto.
   - (* type assertion *)
     intros Ha e k st He Hs. cbn [ann_ok] in Ha. cbn [erase] in He. destruct IHA as [IHA _].
     apply andb_true_iff in Ha as [Ha1 Ha2].
     destruct (erase G A) as [e1|] eqn:E1; [|discriminate]. destruct (sty_of t) as [s0|] eqn:Est; [|discriminate].
-    inversion He; subst. cbn [Sp.spec_tc] in Hs.
-    destruct (Sp.spec_tc e1) as [[k1 s1]|] eqn:Es1; [|discriminate].
+    inversion He; subst. cbn [TypesSpec.spec_tc] in Hs.
+    destruct (TypesSpec.spec_tc e1) as [[k1 s1]|] eqn:Es1; [|discriminate].
     destruct s1; try discriminate.
-    destruct (negb (S.sty_eqb s0 S.SAny) && S.closed s0) eqn:Ec; inversion Hs; subst.
+    destruct (negb (TypesSyntax.sty_eqb s0 TypesSyntax.SAny) && TypesSyntax.closed s0) eqn:Ec; inversion Hs; subst.
     pose proof (ty_of_sty_of _ _ Est) as Et. subst t.
     cbn [ety]. rewrite (IHA Ha1 _ _ _ E1 Es1). simpl.
     rewrite assert_spec, Ec, Ha2. reflexivity.
@@ -1157,7 +1196,7 @@ Qed.
 Lemma ann_sty_ety F G A s : ann_ok F G A = true -> spec_ty_of G A = Some s -> ety F G A = Some (ty_of s).
 Proof.
   intros Ha Hs. unfold spec_ty_of in Hs. destruct (erase G A) as [e|] eqn:He; [|discriminate].
-  destruct (Sp.spec_tc e) as [[k s']|] eqn:Ht; [|discriminate]. simpl in Hs. inversion Hs; subst.
+  destruct (TypesSpec.spec_tc e) as [[k s']|] eqn:Ht; [|discriminate]. simpl in Hs. inversion Hs; subst.
   exact (proj1 (spec_to_static F G A) Ha e k s He Ht).
 Qed.
 
@@ -1176,20 +1215,20 @@ Qed.
 
 (* ... and the specification's assignability rule accepts that flow *)
 Lemma sval_spec_accepts F G t e st :
-  sval F G t e = true -> sty_of t = Some st -> S.closed st = true ->
+  sval F G t e = true -> sty_of t = Some st -> TypesSyntax.closed st = true ->
   exists e', erase G e = Some e' /\
-             exists shown, Sp.spec_check (S.CAssign st) e' = Sp.SAccept st shown.
+             exists shown, TypesSpec.spec_check (TypesSyntax.CAssign st) e' = TypesSpec.SAccept st shown.
 Proof.
   unfold sval. intros H Hst Hc. apply andb_true_iff in H as [_ H].
   assert (EXACT : forall a, sty_is G a t = true ->
-            exists e', erase G a = Some e' /\ exists k, Sp.spec_tc e' = Some (k, st)).
+            exists e', erase G a = Some e' /\ exists k, TypesSpec.spec_tc e' = Some (k, st)).
   { intros a Hs. destruct (sty_is_inv _ _ _ Hs) as (e' & k & s & He & Htc & Ht).
     exists e'. split; [exact He|]. exists k. rewrite Htc. subst t. rewrite sty_of_ty_of in Hst. congruence. }
-  assert (ACC : forall e' k, Sp.spec_tc e' = Some (k, st) ->
-            exists shown, Sp.spec_check (S.CAssign st) e' = Sp.SAccept st shown).
-  { intros e' k Htc. unfold Sp.spec_check, Sp.spec_assign. rewrite Htc.
-    assert (Sp.assignable_b k st st = true) as ->; [|eauto].
-    unfold Sp.assignable_b. destruct k; [rewrite (proj2 (sty_eqb_eq st st) eq_refl); reflexivity|].
+  assert (ACC : forall e' k, TypesSpec.spec_tc e' = Some (k, st) ->
+            exists shown, TypesSpec.spec_check (TypesSyntax.CAssign st) e' = TypesSpec.SAccept st shown).
+  { intros e' k Htc. unfold TypesSpec.spec_check, TypesSpec.spec_assign. rewrite Htc.
+    assert (TypesSpec.assignable_b k st st = true) as ->; [|eauto].
+    unfold TypesSpec.assignable_b. destruct k; [rewrite (proj2 (sty_eqb_eq st st) eq_refl); reflexivity|].
     apply TypesSpecProofs.conv_b_refl. }
   unfold arg_ann in H. destruct t; try discriminate;
     try (apply andb_true_iff in H as [H _]; apply andb_true_iff in H as [_ H];
@@ -1201,14 +1240,14 @@ Proof.
   apply andb_true_iff in H as [H _]. apply andb_true_iff in H as [H _]. apply andb_true_iff in H as [_ H].
   destruct (sty_is_inv _ _ _ H) as (e' & k & s & He & Htc & Ht).
   exists e'. cbn [erase]. split; [exact He|].
-  unfold Sp.spec_check, Sp.spec_assign. rewrite Htc.
-  assert (Sp.assignable_b k S.SAny s = true) as ->; [|eauto].
-  unfold Sp.assignable_b. destruct k; [apply orb_true_r|]. destruct s; reflexivity.
+  unfold TypesSpec.spec_check, TypesSpec.spec_assign. rewrite Htc.
+  assert (TypesSpec.assignable_b k TypesSyntax.SAny s = true) as ->; [|eauto].
+  unfold TypesSpec.assignable_b. destruct k; [apply orb_true_r|]. destruct s; reflexivity.
 Qed.
 
 (* ---------- assignment targets: the chain of index / dot steps from a variable ---------- *)
 (* the written target as the specification's context sees it: root variable type + steps *)
-Fixpoint target_of (G : tyenv) (tg : expr) : option (S.sty * list S.tstep) :=
+Fixpoint target_of (G : tyenv) (tg : expr) : option (TypesSyntax.sty * list TypesSyntax.tstep) :=
   match tg with
   | EVar n _ => match slookup n G with
                 | Some t => match sty_of t with Some s => Some (s, []) | None => None end
@@ -1216,47 +1255,47 @@ Fixpoint target_of (G : tyenv) (tg : expr) : option (S.sty * list S.tstep) :=
                 end
   | EIndex _ a i =>
       match target_of G a, erase G i with
-      | Some (root, steps), Some i' => Some (root, steps ++ [S.TIdx i'])
+      | Some (root, steps), Some i' => Some (root, steps ++ [TypesSyntax.TIdx i'])
       | _, _ => None
       end
   | EDot _ a _ =>
       match target_of G a with
-      | Some (root, steps) => Some (root, steps ++ [S.TDot])
+      | Some (root, steps) => Some (root, steps ++ [TypesSyntax.TDot])
       | None => None
       end
   | _ => None
   end.
 
 (* the type the specification's target-chain rule gives the target *)
-Definition target_sty (G : tyenv) (tg : expr) : option S.sty :=
+Definition target_sty (G : tyenv) (tg : expr) : option TypesSyntax.sty :=
   match target_of G tg with
   | Some (root, steps) =>
-      match Sp.spec_steps steps with
-      | Some ks => Sp.target_chain_s root ks
+      match TypesSpec.spec_steps steps with
+      | Some ks => TypesSpec.target_chain_s root ks
       | None => None
       end
   | None => None
   end.
 
 Lemma spec_steps_app a b :
-  Sp.spec_steps (a ++ b) =
-  match Sp.spec_steps a, Sp.spec_steps b with Some x, Some y => Some (x ++ y) | _, _ => None end.
+  TypesSpec.spec_steps (a ++ b) =
+  match TypesSpec.spec_steps a, TypesSpec.spec_steps b with Some x, Some y => Some (x ++ y) | _, _ => None end.
 Proof.
   induction a as [|st a IH]; simpl.
-  - destruct (Sp.spec_steps b); reflexivity.
+  - destruct (TypesSpec.spec_steps b); reflexivity.
   - rewrite IH.
     destruct (match st with
-              | S.TIdx i => match Sp.spec_tc i with Some (_, it) => Some (Sp.SKIdx it) | None => None end
-              | S.TDot => Some Sp.SKDot | S.TSlice _ => Some Sp.SKSlice | S.TAssert _ => Some Sp.SKAssert end);
-      destruct (Sp.spec_steps a); destruct (Sp.spec_steps b); reflexivity.
+              | TypesSyntax.TIdx i => match TypesSpec.spec_tc i with Some (_, it) => Some (TypesSpec.SKIdx it) | None => None end
+              | TypesSyntax.TDot => Some TypesSpec.SKDot | TypesSyntax.TSlice _ => Some TypesSpec.SKSlice | TypesSyntax.TAssert _ => Some TypesSpec.SKAssert end);
+      destruct (TypesSpec.spec_steps a); destruct (TypesSpec.spec_steps b); reflexivity.
 Qed.
 
 Lemma target_chain_app root a b :
-  Sp.target_chain_s root (a ++ b) =
-  match Sp.target_chain_s root a with Some t => Sp.target_chain_s t b | None => None end.
+  TypesSpec.target_chain_s root (a ++ b) =
+  match TypesSpec.target_chain_s root a with Some t => TypesSpec.target_chain_s t b | None => None end.
 Proof.
   revert root; induction a as [|k a IH]; intros root; simpl; [reflexivity|].
-  destruct (Sp.target_step_s root k); [apply IH|reflexivity].
+  destruct (TypesSpec.target_step_s root k); [apply IH|reflexivity].
 Qed.
 
 (* a target the chain rule types is typed the same by the expression rules, and its last step is an
@@ -1265,7 +1304,7 @@ Lemma target_sty_spec G : forall tg st, target_sty G tg = Some st ->
   spec_ty_of G tg = Some st /\
   match tg with
   | EVar _ _ | EDot _ _ _ => True
-  | EIndex _ a _ => exists u, spec_ty_of G a = Some (S.SArr u) \/ spec_ty_of G a = Some (S.SMap u)
+  | EIndex _ a _ => exists u, spec_ty_of G a = Some (TypesSyntax.SArr u) \/ spec_ty_of G a = Some (TypesSyntax.SMap u)
   | _ => False
   end.
 Proof.
@@ -1278,44 +1317,44 @@ Proof.
   - (* index step *)
     destruct (target_of G tg1) as [[root steps]|] eqn:E1; [|discriminate].
     destruct (erase G tg2) as [i'|] eqn:E2; [|discriminate].
-    rewrite spec_steps_app in H. destruct (Sp.spec_steps steps) as [ks|] eqn:Ek; [|discriminate].
-    simpl in H. destruct (Sp.spec_tc i') as [[ki it]|] eqn:Ei; [|discriminate].
-    rewrite target_chain_app in H. destruct (Sp.target_chain_s root ks) as [ta|] eqn:Ec; [|discriminate].
+    rewrite spec_steps_app in H. destruct (TypesSpec.spec_steps steps) as [ks|] eqn:Ek; [|discriminate].
+    simpl in H. destruct (TypesSpec.spec_tc i') as [[ki it]|] eqn:Ei; [|discriminate].
+    rewrite target_chain_app in H. destruct (TypesSpec.target_chain_s root ks) as [ta|] eqn:Ec; [|discriminate].
     destruct (IHtg1 ta eq_refl) as [Ha _]. simpl in H.
     unfold spec_ty_of in *. cbn [erase]. destruct (erase G tg1) as [l'|]; [|discriminate]. rewrite E2.
-    cbn [Sp.spec_tc]. destruct (Sp.spec_tc l') as [[kl a]|]; [|discriminate]. simpl in Ha. inversion Ha; subst a.
-    rewrite Ei. destruct (Sp.target_step_s ta (Sp.SKIdx it)) as [t'|] eqn:Et; [|discriminate]. inversion H; subst t'.
+    cbn [TypesSpec.spec_tc]. destruct (TypesSpec.spec_tc l') as [[kl a]|]; [|discriminate]. simpl in Ha. inversion Ha; subst a.
+    rewrite Ei. destruct (TypesSpec.target_step_s ta (TypesSpec.SKIdx it)) as [t'|] eqn:Et; [|discriminate]. inversion H; subst t'.
     destruct ta; try discriminate; destruct it; try discriminate; simpl in Et; inversion Et; subst; simpl; eauto.
   - (* dot step *)
     destruct (target_of G tg) as [[root steps]|] eqn:E1; [|discriminate].
-    rewrite spec_steps_app in H. destruct (Sp.spec_steps steps) as [ks|] eqn:Ek; [|discriminate].
-    simpl in H. rewrite target_chain_app in H. destruct (Sp.target_chain_s root ks) as [ta|] eqn:Ec; [|discriminate].
+    rewrite spec_steps_app in H. destruct (TypesSpec.spec_steps steps) as [ks|] eqn:Ek; [|discriminate].
+    simpl in H. rewrite target_chain_app in H. destruct (TypesSpec.target_chain_s root ks) as [ta|] eqn:Ec; [|discriminate].
     destruct (IHtg ta eq_refl) as [Ha _]. simpl in H.
     unfold spec_ty_of in *. cbn [erase]. destruct (erase G tg) as [l'|]; [|discriminate].
-    cbn [Sp.spec_tc option_map]. destruct (Sp.spec_tc l') as [[kl a]|]; [|discriminate]. simpl in Ha. inversion Ha; subst a.
-    destruct (Sp.target_step_s ta Sp.SKDot) as [t'|] eqn:Et; [|discriminate]. inversion H; subst t'.
+    cbn [TypesSpec.spec_tc option_map]. destruct (TypesSpec.spec_tc l') as [[kl a]|]; [|discriminate]. simpl in Ha. inversion Ha; subst a.
+    destruct (TypesSpec.target_step_s ta TypesSpec.SKDot) as [t'|] eqn:Et; [|discriminate]. inversion H; subst t'.
     destruct ta; try discriminate; simpl in Et; inversion Et; subst; simpl; auto.
 Qed.
 
 (* ---------- the loop variable of  for x := range e ---------- *)
 (* the specification's verdict on the range operand, under the guard of [range_spec] *)
-Definition range_guard (s : S.sty) : bool :=
-  match s with S.SArr u => S.closed u | S.SNum => false | _ => true end.
+Definition range_guard (s : TypesSyntax.sty) : bool :=
+  match s with TypesSyntax.SArr u => TypesSyntax.closed u | TypesSyntax.SNum => false | _ => true end.
 
-Definition srange (s : S.sty) : option ty :=
+Definition srange (s : TypesSyntax.sty) : option ty :=
   if range_guard s then
-    match Sp.spec_check S.CRange (S.EVar s) with Sp.SAccept st _ => Some (ty_of st) | Sp.SReject => None end
+    match TypesSpec.spec_check TypesSyntax.CRange (TypesSyntax.EVar s) with TypesSpec.SAccept st _ => Some (ty_of st) | TypesSpec.SReject => None end
   else None.
 
-Lemma spec_check_range_tc e k s : Sp.spec_tc e = Some (k, s) ->
-  Sp.spec_check S.CRange e = Sp.spec_check S.CRange (S.EVar s).
-Proof. intros H. unfold Sp.spec_check. rewrite H. reflexivity. Qed.
+Lemma spec_check_range_tc e k s : TypesSpec.spec_tc e = Some (k, s) ->
+  TypesSpec.spec_check TypesSyntax.CRange e = TypesSpec.spec_check TypesSyntax.CRange (TypesSyntax.EVar s).
+Proof. intros H. unfold TypesSpec.spec_check. rewrite H. reflexivity. Qed.
 
 Lemma srange_static s t : srange s = Some t -> range_var_ty (ty_of s) = Some t.
 Proof.
   unfold srange. destruct (range_guard s) eqn:Eg; [|discriminate]. intros H.
   rewrite <- (range_spec s).
-  - destruct (Sp.spec_check S.CRange (S.EVar s)); [|discriminate]. inversion H; reflexivity.
+  - destruct (TypesSpec.spec_check TypesSyntax.CRange (TypesSyntax.EVar s)); [|discriminate]. inversion H; reflexivity.
   - destruct s; simpl in *; auto; discriminate.
 Qed.
 
@@ -1720,82 +1759,82 @@ Proof.
 Qed.
 
 (* ---------- every context condition of [swt_stmt] is a case the SPECIFICATION accepts ---------- *)
-Lemma defaults_closed s : S.closed s = true -> Sp.defaults s = s.
+Lemma defaults_closed s : TypesSyntax.closed s = true -> TypesSpec.defaults s = s.
 Proof. induction s; simpl; intros H; try reflexivity; try discriminate; f_equal; auto. Qed.
 
 (* inferred declaration  x := e  *)
 Lemma decl_spec_accepts F G t e : sis F G e t = true -> ty_decl t = true ->
-  exists e' st, erase G e = Some e' /\ ty_of st = t /\ Sp.spec_check S.CDecl e' = Sp.SAccept st st.
+  exists e' st, erase G e = Some e' /\ ty_of st = t /\ TypesSpec.spec_check TypesSyntax.CDecl e' = TypesSpec.SAccept st st.
 Proof.
   unfold sis. intros H Hd. apply andb_true_iff in H as [_ H].
   destruct (sty_is_inv _ _ _ H) as (e' & k & s & He & Htc & Ht). exists e', s. split; [exact He|]. split; [auto|].
-  unfold Sp.spec_check. rewrite Htc. rewrite defaults_closed; [reflexivity|].
+  unfold TypesSpec.spec_check. rewrite Htc. rewrite defaults_closed; [reflexivity|].
   rewrite closed_proper, <- Ht. unfold ty_decl in Hd. apply andb_true_iff in Hd as [Hd _]. exact Hd.
 Qed.
 
 (* condition of if / while *)
 Lemma cond_spec_accepts F G c : sis F G c TBool = true ->
-  exists e', erase G c = Some e' /\ Sp.spec_check S.CCond e' = Sp.SAccept S.SBool S.SBool.
+  exists e', erase G c = Some e' /\ TypesSpec.spec_check TypesSyntax.CCond e' = TypesSpec.SAccept TypesSyntax.SBool TypesSyntax.SBool.
 Proof.
   unfold sis. intros H. apply andb_true_iff in H as [_ H].
   destruct (sty_is_inv _ _ _ H) as (e' & k & s & He & Htc & Ht). exists e'. split; [exact He|].
-  unfold Sp.spec_check. rewrite Htc. destruct s; try discriminate. reflexivity.
+  unfold TypesSpec.spec_check. rewrite Htc. destruct s; try discriminate. reflexivity.
 Qed.
 
 (* range operand *)
 Lemma range_spec_accepts G y st t : spec_ty_of G y = Some st -> srange st = Some t ->
-  exists e' st', erase G y = Some e' /\ ty_of st' = t /\ Sp.spec_check S.CRange e' = Sp.SAccept st' st'.
+  exists e' st', erase G y = Some e' /\ ty_of st' = t /\ TypesSpec.spec_check TypesSyntax.CRange e' = TypesSpec.SAccept st' st'.
 Proof.
   unfold spec_ty_of, srange. destruct (erase G y) as [e'|]; [|discriminate].
-  destruct (Sp.spec_tc e') as [[k s]|] eqn:Htc; [|discriminate]. cbn [option_map snd]. intros Hs. inversion Hs; subst s.
+  destruct (TypesSpec.spec_tc e') as [[k s]|] eqn:Htc; [|discriminate]. cbn [option_map snd]. intros Hs. inversion Hs; subst s.
   destruct (range_guard st); [|discriminate]. rewrite <- (spec_check_range_tc e' k st Htc).
-  destruct (Sp.spec_check S.CRange e') as [a b|] eqn:Ec; [|discriminate]. intros Ht. inversion Ht; subst.
+  destruct (TypesSpec.spec_check TypesSyntax.CRange e') as [a b|] eqn:Ec; [|discriminate]. intros Ht. inversion Ht; subst.
   exists e', a. split; [reflexivity|]. split; [reflexivity|].
-  rewrite Ec. unfold Sp.spec_check in Ec. rewrite Htc in Ec. destruct st; inversion Ec; reflexivity.
+  rewrite Ec. unfold TypesSpec.spec_check in Ec. rewrite Htc in Ec. destruct st; inversion Ec; reflexivity.
 Qed.
 
 (* assignment to a target chain  v<steps> = e  *)
 Lemma assign_to_spec_accepts F G tg st e :
-  target_sty G tg = Some st -> S.closed st = true -> sval F G (ty_of st) e = true ->
+  target_sty G tg = Some st -> TypesSyntax.closed st = true -> sval F G (ty_of st) e = true ->
   exists root steps e', target_of G tg = Some (root, steps) /\ erase G e = Some e' /\
-    exists shown, Sp.spec_check (S.CAssignTo root steps) e' = Sp.SAccept st shown.
+    exists shown, TypesSpec.spec_check (TypesSyntax.CAssignTo root steps) e' = TypesSpec.SAccept st shown.
 Proof.
   unfold target_sty. destruct (target_of G tg) as [[root steps]|]; [|discriminate].
-  destruct (Sp.spec_steps steps) as [ks|] eqn:Ek; [|discriminate]. intros Hc Hcl Hv.
+  destruct (TypesSpec.spec_steps steps) as [ks|] eqn:Ek; [|discriminate]. intros Hc Hcl Hv.
   destruct (sval_spec_accepts F G (ty_of st) e st Hv (sty_of_ty_of st) Hcl) as (e' & He & shown & Hacc).
   exists root, steps, e'. split; [reflexivity|]. split; [exact He|]. exists shown.
-  unfold Sp.spec_check in *. rewrite Ek, Hc. exact Hacc.
+  unfold TypesSpec.spec_check in *. rewrite Ek, Hc. exact Hacc.
 Qed.
 
 (* arguments of generic built-in parameters *)
 Lemma generic_arr_spec_accepts F G a : arg_ann (ann_ok F G) G TGenArr a = true ->
-  exists e' st, erase G a = Some e' /\ Sp.spec_check S.CGenericArr e' = Sp.SAccept st st.
+  exists e' st, erase G a = Some e' /\ TypesSpec.spec_check TypesSyntax.CGenericArr e' = TypesSpec.SAccept st st.
 Proof.
   unfold arg_ann, spec_ty_of. intros H. apply andb_true_iff in H as [_ H].
-  destruct (erase G a) as [e'|]; [|discriminate]. destruct (Sp.spec_tc e') as [[k s]|] eqn:Htc; [|discriminate].
+  destruct (erase G a) as [e'|]; [|discriminate]. destruct (TypesSpec.spec_tc e') as [[k s]|] eqn:Htc; [|discriminate].
   simpl in H. apply andb_true_iff in H as [H _]. exists e', s. split; [reflexivity|].
-  unfold Sp.spec_check. rewrite Htc, H. reflexivity.
+  unfold TypesSpec.spec_check. rewrite Htc, H. reflexivity.
 Qed.
 Lemma generic_map_spec_accepts F G a : arg_ann (ann_ok F G) G TGenMap a = true ->
-  exists e' st, erase G a = Some e' /\ Sp.spec_check S.CGenericMap e' = Sp.SAccept st st.
+  exists e' st, erase G a = Some e' /\ TypesSpec.spec_check TypesSyntax.CGenericMap e' = TypesSpec.SAccept st st.
 Proof.
   unfold arg_ann, spec_ty_of. intros H. apply andb_true_iff in H as [_ H].
-  destruct (erase G a) as [e'|]; [|discriminate]. destruct (Sp.spec_tc e') as [[k s]|] eqn:Htc; [|discriminate].
+  destruct (erase G a) as [e'|]; [|discriminate]. destruct (TypesSpec.spec_tc e') as [[k s]|] eqn:Htc; [|discriminate].
   simpl in H. apply andb_true_iff in H as [H _]. exists e', s. split; [reflexivity|].
-  unfold Sp.spec_check. rewrite Htc, H. reflexivity.
+  unfold TypesSpec.spec_check. rewrite Htc, H. reflexivity.
 Qed.
 
 (* the retyped empty literal of a value slot is the source expression [] / {} , which the
    specification converts to every closed array / map type *)
 Lemma zero_spec_accepts G t e st : zero_lit t e = true -> sty_of t = Some st ->
-  exists e', erase G e = Some e' /\ exists shown, Sp.spec_check (S.CAssign st) e' = Sp.SAccept st shown.
+  exists e', erase G e = Some e' /\ exists shown, TypesSpec.spec_check (TypesSyntax.CAssign st) e' = TypesSpec.SAccept st shown.
 Proof.
   unfold zero_lit. intros H Hst.
   destruct e; try discriminate.
-  - destruct es; [|discriminate]. destruct t; try discriminate. exists (S.EArr []). split; [reflexivity|].
+  - destruct es; [|discriminate]. destruct t; try discriminate. exists (TypesSyntax.EArr []). split; [reflexivity|].
     simpl in Hst. destruct (sty_of t) as [u|]; [|discriminate]. inversion Hst; subst st.
     vm_compute. eauto.
-  - destruct pairs; [|discriminate]. destruct t; try discriminate. exists (S.EMap []). split; [reflexivity|].
+  - destruct pairs; [|discriminate]. destruct t; try discriminate. exists (TypesSyntax.EMap []). split; [reflexivity|].
     simpl in Hst. destruct (sty_of t) as [u|]; [|discriminate]. inversion Hst; subst st.
     vm_compute. eauto.
 Qed.
@@ -1803,8 +1842,8 @@ Qed.
 (* an assignment to a target chain is judged like an assignment to a variable of the chain's type *)
 Lemma assign_to_as_assign G tg st root steps e' :
   target_of G tg = Some (root, steps) -> target_sty G tg = Some st ->
-  Sp.spec_check (S.CAssignTo root steps) e' = Sp.spec_check (S.CAssign st) e'.
+  TypesSpec.spec_check (TypesSyntax.CAssignTo root steps) e' = TypesSpec.spec_check (TypesSyntax.CAssign st) e'.
 Proof.
-  unfold target_sty. intros -> H. destruct (Sp.spec_steps steps) as [ks|] eqn:Ek; [|discriminate].
-  unfold Sp.spec_check. rewrite Ek, H. reflexivity.
+  unfold target_sty. intros -> H. destruct (TypesSpec.spec_steps steps) as [ks|] eqn:Ek; [|discriminate].
+  unfold TypesSpec.spec_check. rewrite Ek, H. reflexivity.
 Qed.
